@@ -350,12 +350,21 @@ func pickTag(rng *rand.Rand, text []byte) string {
 }
 
 // render returns the text of one argument and the value the splitter must return for it.
+var midWordContinuations int64
+
 func render(rng *rand.Rand, a rarg) (text []byte, expect string) {
 	switch a.style {
 	case 0:
 		// a bare word must not start a heredoc by accident: avoid "=<<"
 		v := bytes.ReplaceAll(a.value, []byte("=<<"), []byte("=<_"))
 		// first byte must not look like an opening quote (it cannot: no quotes in pool)
+		if len(v) >= 2 && rng.Intn(5) == 0 {
+			// a backslash-newline in the middle of a word continues the line – and the word
+			at := 1 + rng.Intn(len(v)-1)
+			t := append(append(append([]byte{}, v[:at]...), '\\', '\n'), v[at:]...)
+			midWordContinuations++
+			return t, string(v)
+		}
 		return v, string(v)
 	case 1:
 		q := bytes.ReplaceAll(a.value, []byte(`"`), []byte(`\"`))
